@@ -273,7 +273,7 @@ func (t CollectionPath) Of(i Item) Item {
 		return it
 	}
 	it := t.ofIRI(i.GetLink())
-	if OfActor.Contains(t) && ActorTypes.Contains(i.GetType()) {
+	if OfActor.Contains(t) && (ActorTypes.Contains(i.GetType()) || i.GetType() == ActorType) {
 		OnActor(i, func(a *Actor) error {
 			it = t.ofActor(a)
 			return nil
